@@ -78,7 +78,7 @@ if op == "add_atom":
             m.add_atom(a, coord, 0.25)
             ref[id(a)] = (coord, 0.25)
         else:
-            m.add_atom(a, coord)
+            (m.add_atom(a, coord, None) if kind == "Molecule" else m.add_atom(a, coord))       # "no charge known"
             ref[id(a)] = (coord, None)
         print("add_atom returned")
     except BaseException as e:
@@ -144,7 +144,11 @@ elif op in ("append_bond", "append_bonds", "extend_bonds"):
     elif op == "append_bonds":
         m.append_bonds(b1, ml.Bond(m.atoms[0], m.atoms[2]))
     else:
-        m.extend_bonds([b1, ml.Bond(m.atoms[0], m.atoms[2])])
+        m.extend_bonds(x for x in [b1, ml.Bond(m.atoms[0], m.atoms[2])])        # a one-shot iterator
+    for b in m.bonds:
+        if b.parent is not m:
+            bad.append("a bond added to the molecule does not report the molecule as its parent")
+            break
     for b in m.bonds:
         if not any(b.a1 is x for x in m.atoms) or not any(b.a2 is x for x in m.atoms):
             bad.append("a bond of the molecule ends on an atom that is not in the molecule")
